@@ -35,7 +35,7 @@ LEAVES = ([("none",), ("bool", True), ("bool", False)]
           + [("str", v) for v in ("", "a", "ü", "\x00", "\U0001f600", "\ud800", "__json_type__", "1", "null")]
           + [("uuid", U1), ("uuid", U2), ("point1", 3), ("point2", "1.5", "-2.0")])
 
-OBJ = ["Box", "SubBox", "SubSubBox", "Foreign"]
+OBJ = ["Box", "SubBox", "SubSubBox", "Foreign", "ForeignSub"]
 
 
 def build(c):
@@ -137,6 +137,8 @@ def same(a, b):
         return same(a.payload, b.payload) and same(a.extra, b.extra)
     if isinstance(a, M.Box):
         return same(a.payload, b.payload)
+    if isinstance(a, M.ForeignSub):
+        return same(a.v, b.v) and same(a.w, b.w)
     if isinstance(a, M.Foreign):
         return same(a.v, b.v)
     if isinstance(a, M.Point):
@@ -205,7 +207,7 @@ def run_case(case):
 
 def finish(run):
     if run.exhaustive and not run.failures:
-        for k in ("depth:3", "top:obj:SubSubBox", "top:obj:Foreign", "top:point2", "top:uuid"):
+        for k in ("depth:3", "top:obj:SubSubBox", "top:obj:Foreign", "top:obj:ForeignSub", "top:point2", "top:uuid"):
             if not run.features.get(k):
                 raise HarnessError(f"vacuous: {k} never exercised")
 
